@@ -31,13 +31,24 @@ def gen_case(rng):
     return {"kind": kind, "src": src, "ndigits": nd, "allow_text": allow_text, "drop_unsupported": drop}
 
 
+# documents on which the path engine gives up (skia's simplify raises): the conversion has to raise too, a normal return
+# would carry what the failed step was to remove (an evenodd rule, overlaps, a stroke)
+_HEAD = '<svg xmlns="http://www.w3.org/2000/svg" viewBox="0 0 10 10">'
+FIXED_CASES = [
+    {"kind": "engine-gives-up", "src": _HEAD + '<path fill-rule="evenodd" d="M5,9 C8.5,7.5 0,2 4,6.5 L1.6,3.3 Z"/><path d="M1,1 L3,1 L3,3 Z"/></svg>',
+     "ndigits": 3, "allow_text": False, "drop_unsupported": False},
+    {"kind": "engine-gives-up", "src": _HEAD + '<g fill-rule="evenodd"><path d="M5,9 C8.5,7.5 0,2 4,6.5 L1.6,3.3 Z"/></g></svg>',
+     "ndigits": 0, "allow_text": True, "drop_unsupported": True},
+]
+
+
 def ops_of(c):
     return ["topicosvg %d %d %d" % (c["ndigits"], int(c["allow_text"]), int(c["drop_unsupported"]))]
 
 
 def correspondence(ctx):
     n = 1500 if ctx.thorough() else 220
-    cases = [gen_case(ctx.rng) for _ in range(n)]
+    cases = [dict(c) for c in FIXED_CASES] + [gen_case(ctx.rng) for _ in range(n)]
     runs = [pipeline.Run(c["src"], ops_of(c)) for c in cases]
     live = [(c, r) for c, r in zip(cases, runs) if r.in_wire is not None]
     outs = ctx.model([r.model_line() for _, r in live])
@@ -122,7 +133,7 @@ def search(ctx, disagreements):
     ncli = 12 if ctx.thorough() else 4
     cli_items, cli_cases = [], []
     # the option combinations the command line offers, on fixed documents the library converts with the same options
-    _doc = ('<svg xmlns="http://www.w3.org/2000/svg" viewBox="0 0 40 40"><image width="5" height="5"/><text x="2" y="9">t</text>'
+    _doc = ('<?xml version="1.0"?><!-- head --><?pi x?><svg xmlns="http://www.w3.org/2000/svg" viewBox="0 0 40 40"><!-- a comment --><?target data?><image width="5" height="5"/><text x="2" y="9">t</text>'
             '<rect width="9" height="9"/><g opacity="0.5"><foo/><circle r="3"/><rect x="9" width="4" height="4"/></g></svg>')
     SVG = pipeline.impl()
     for at_, dr_ in ((True, True), (False, True)):
@@ -134,6 +145,9 @@ def search(ctx, disagreements):
         ctx.count("cli-flags:rc%d" % rc)
         if rc != 0:
             found.append({"kind": "grammar", "input": c_, "tag": None, "detail": "the library converts this document with allow_text=%s drop_unsupported=%s but the CLI with the same flags exits with %d" % (at_, dr_, rc)})
+            continue
+        if "<!--" in out or "<?target" in out or "<?pi" in out:
+            found.append({"kind": "grammar", "input": c_, "tag": None, "detail": "a comment or processing instruction of the source survives in the CLI output (file argument): %s" % out[:300]})
             continue
         root = etree.fromstring(out.encode("utf-8"), etree.XMLParser(remove_blank_text=True))
         cli_items.append((tw.encode(root), 3, at_))
